@@ -59,7 +59,8 @@ func (m *TN93Model) Distance(seq1 []uint8, seq2 []uint8, weights []float64) (flo
 	}
 
 	dist = 2.*(m.pi[0]*m.pi[2]+m.pi[1]*m.pi[3])*(y*b1+(1-y)*b2) + 2*pir*piy*b3
-	if dist > 0 {
+	// An undefined distance (saturation, no comparable site) stays NaN
+	if dist > 0 || math.IsNaN(dist) {
 		return dist, nil
 	} else {
 		return 0, nil
